@@ -462,8 +462,11 @@ func Main(prop string) {
 			c := e.famSmall(n, -1)
 			run.Count(fmt.Sprintf("exhaustive-trees-%d-blocks-all-orders=%d", n, c))
 		}
-		e.famSmall(run.Pick(5, 6), run.Pick(3, 40))
-		for i := 0; i < run.Pick(60, 1200); i++ {
+		// the space "every rooted tree with at most 4 (thorough: 5) blocks x no or one invalid block at each position x
+		// every arrival order" has been enumerated completely
+		run.SetExhaustive(true)
+		e.famSmall(run.Pick(5, 6), run.Pick(3, 15))
+		for i := 0; i < run.Pick(60, 600); i++ {
 			inv := -1
 			s := 1 + rng.Intn(4)
 			if rng.Chance(1, 2) {
@@ -471,10 +474,10 @@ func Main(prop string) {
 			}
 			e.famTwoBranches(rng.Intn(3), 1+rng.Intn(3), s, inv, invalidKinds[rng.Intn(len(invalidKinds))], 4, rng.Intn(4)-2)
 		}
-		for i := 0; i < run.Pick(150, 3000); i++ {
+		for i := 0; i < run.Pick(150, 1500); i++ {
 			e.famThreeBranches()
 		}
-		for i := 0; i < run.Pick(300, 8000); i++ {
+		for i := 0; i < run.Pick(300, 4000); i++ {
 			e.famRandom(run.Pick(10, 25))
 		}
 	} else {
@@ -502,10 +505,10 @@ func Main(prop string) {
 		for n := 1; n <= run.Pick(3, 4); n++ {
 			e.famSmall(n, -1)
 		}
-		for i := 0; i < run.Pick(150, 4000); i++ {
+		for i := 0; i < run.Pick(150, 2000); i++ {
 			e.famThreeBranches()
 		}
-		for i := 0; i < run.Pick(100, 3000); i++ {
+		for i := 0; i < run.Pick(100, 1500); i++ {
 			e.famRandom(run.Pick(10, 20))
 		}
 	}
